@@ -115,6 +115,16 @@ func main() {
 		code := replayCmd(os.Args[2])
 		cleanupReplay()
 		os.Exit(code)
+	case "nativetest":
+		// symgo nativetest <harness dir name> <go test -run regexp>: builds the native replay
+		// binary of the harness (overlay, native hooks) and runs its *_test.go tests (sweeps).
+		if len(os.Args) < 4 {
+			fmt.Fprintln(os.Stderr, "usage: symgo nativetest <harness> <regexp>")
+			os.Exit(2)
+		}
+		code := nativeTestCmd(os.Args[2], os.Args[3])
+		cleanupReplay()
+		os.Exit(code)
 	}
 	fmt.Fprintln(os.Stderr, "unknown command")
 	os.Exit(2)
